@@ -24,7 +24,7 @@ MANIFEST = dict(
          "Wait, executions after Wait, job-side ctx.Done and the goroutine profile are checked. Goroutine exit itself is observed, not proved.",
     design_ref="6 C10")
 
-OPS = {"start": "OStart", "stop": "OStop", "cancel": "OCancel", "stopstart": "OStopStart", "schedule": "OSched"}
+OPS = {"start": "OStart", "stop": "OStop", "cancel": "OCancel", "stopstart": "OStopStart", "schedule": "OSched", "wait": "OSched"}
 MODES = {"unbounded": "(mkd false 0)", "blocking": "(mkd true 0)", "pool": "(mkd false 2)"}
 
 
@@ -35,6 +35,13 @@ def oracle(r):
             r["observed_started"], r["stable"], "a Start" if r["expected_started"] else "a Stop or cancellation"))
     if r["expected_started"] and r["observed_started"] and not r["fired_when_started"]:
         why.append("the (re)started scheduler executed no job within 4 s")
+    if r.get("stop_hung"):
+        why.append("Stop() did not return within 6 s (jobs: %s, mode %s)" % (r["jobs"], r["mode"]))
+        return why
+    if r.get("waits_returned_while_started"):
+        why.append("Wait returned %d time(s) while the scheduler was started (a run was alive)" % r["waits_returned_while_started"])
+    if r.get("waits_hanging_while_stopped"):
+        why.append("Wait did not return within 6 s although the scheduler had been stopped (%d time(s))" % r["waits_hanging_while_stopped"])
     if not r["wait_returned"]:
         why.append("Wait did not return within 6 s after Stop")
     if r["execs_after_wait"]:
@@ -63,6 +70,14 @@ def run_life(binp, seed, n, only=None):
         cmd = [binp, "life", str(seed), str(n), str(only if only is not None else -1), str(i), "4"]
         rc, rows, out = lc.run_json(cmd, timeout=900)
         if rc != 0:
+            if "panic:" in out or "fatal error:" in out:
+                # the scheduler took the harness process down: that is a finding, not a machinery failure
+                m = out[out.find("panic:") if "panic:" in out else out.find("fatal error:"):]
+                last = rows[-1] if rows else {}
+                CRASHES.append({"case": {"kind": "life-crash", "seed": seed, "n": n, "shard": i, "after_sequence_id": last.get("id")},
+                                "why": ["the process running the lifecycle sequences died: " + m[:700]],
+                                "how": "looph life %d %d -1 %d 4 : the sequence after id %s in that shard" % (seed, n, i, last.get("id"))})
+                return rows
             raise RuntimeError("looph life failed: " + out[-2000:])
         return rows
     if only is not None:
@@ -82,6 +97,7 @@ def run_pool(binp, seed, rounds):
 
 
 POOL = []
+CRASHES = []
 
 
 MODEL_V = """From Coq Require Import ZArith List Bool.
@@ -132,6 +148,7 @@ def run(ctx):
     n = 60 if ctx.tier == "quick" else 600
     rows = run_life(binp, ctx.seed, n)
     failures, mismatches = [], []
+    failures += CRASHES[:2]
     suspects = [r for r in rows if oracle(r)]
     for r in suspects[:8]:
         if len(failures) >= 3:
@@ -196,6 +213,15 @@ def replay(ctx, path):
     obj = json.load(open(path))
     c = obj.get("case", {})
     binp = lc.looph()
+    if c.get("kind") == "life-crash":
+        del CRASHES[:]
+        for k in range(3):
+            run_life(binp, c.get("seed", ctx.seed), c.get("n", 60))
+            if CRASHES:
+                vlib.report_violation(ctx, CRASHES[0])
+                return 1
+        print("no crash in three runs of the sequences")
+        return 0
     if c.get("kind") == "poolstop":
         bad = [x for x in run_pool(binp, c.get("seed", ctx.seed), 60) if pool_oracle(x)]
         print(json.dumps({"rounds": len(POOL), "failing": len(bad)}))
